@@ -52,7 +52,16 @@ claim("C10",
       "trusted: TLC, the label parser of the encoder (size-members-id), non-negative int vertex ids",
       T_TLC, "DESIGN.md 4 C10")
 
+claim("C11",
+      "TLC model-checks the corner-swap state machine (draw, corners by motif id, suitability incl. self-loop rejection, Metropolis acceptance as nondeterminism, apply) on a committed family of small clean motif networks to depth 3 (thorough 6): edge count, per-topology degrees, no self-loop, ids stable, motif shape; the pinned id-inheritance and the missing loop check are deviations that must fail. The real rewire() is driven (a) along every first proposal of the model family (directed oracle) and (b) through seeded runs on harness-built clean networks with every swap_condition call recorded; TLC judges every intermediate graph against the input and classifies every accepted swap as the model's corner exchange (repaired or pinned-id mechanism). The recorded known finding (motif ids inherited from the wrong motif) is recognised by that classification; any other violation is reported",
+      "trusted: TLC; clean networks are built by the harness; snapshots come from a wrapper on swap_condition (argument G); a rewire() call stopped by the watchdog is inconclusive",
+      T_TLC, "DESIGN.md 4 C11")
+claim("C12",
+      "Same model and recorded executions as C11 with holed targets: TLC checks that every edge created by any accepted swap (and every edge of the output not in the input) has positive target weight, recomputes the Metropolis decision of EVERY recorded swap_condition call exactly (integer weights over 64, aligned 4096-point uniform draw, the code's own pairing and 'nothing changes' rule) and model-checks 'ratio = stationary-weight ratio'; seeded 150-vertex runs toward an assortative target must reduce the L1 distance (computed by TLC as integers) on a majority of seeds",
+      "trusted: TLC; distance clause is statistical (calibrated: 60 seeds, worst drop 10.5%); chain is not reversible move-by-move (TLC counterexample), so exact detailed balance is not claimed",
+      T_TLC, "DESIGN.md 4 C12")
+
 _pending = "no check built yet in this round; planned (DESIGN.md 4)"
-for p in ["C11","C12","C13","C14","C15","C16","C17","C18"]:
+for p in ["C13","C14","C15","C16","C17","C18"]:
     NOT_APPLICABLE[p] = _pending
 NOT_APPLICABLE["C19"] = "numerical accuracy of four stateless real-valued functions (exp, zeta, polylog): no state, no transitions, TLC has neither reals nor transcendental functions (DESIGN.md 5)"
